@@ -22,6 +22,13 @@ def WF : List Name → List Decl → Prop
   | seen, d :: ds =>
     d.name ≠ [] ∧ d.name ∉ seen ∧ (∀ p ∈ d.parents, p ∈ seen) ∧ WF (seen ++ [d.name]) ds
 
+instance decWF : (seen : List Name) → (ds : List Decl) → Decidable (WF seen ds)
+  | _, [] => isTrue trivial
+  | seen, d :: ds => by
+    unfold WF
+    have := decWF (seen ++ [d.name]) ds
+    exact inferInstance
+
 /-- every parent is a declared name -/
 def Closed (ds : List Decl) : Prop := ∀ d ∈ ds, ∀ p ∈ d.parents, p ∈ dnames ds
 
@@ -541,5 +548,88 @@ theorem recvN_iff_applies {std : List OptSpec} {ds : List Decl} {ps0 : List Pars
         obtain ⟨hrm, hrn⟩ := findParser_some hr
         simp only [hr, decide_eq_true_eq]
         exact Or.inr ((hinv.deps r hrm _).mpr (hrn ▸ ha))
+
+/-! ### distinct names -/
+
+theorem wf_nodup (ds : List Decl) (seen : List Name) (hwf : WF seen ds) (hs : seen.Nodup) :
+    (seen ++ dnames ds).Nodup := by
+  induction ds generalizing seen with
+  | nil => simpa [dnames] using hs
+  | cons d ds ih =>
+    obtain ⟨_, h2, _, h4⟩ := hwf
+    have : (seen ++ [d.name]).Nodup := by
+      rw [List.nodup_append]
+      refine ⟨hs, by simp, ?_⟩
+      intro a ha b hb
+      simp at hb
+      subst hb
+      exact fun h => h2 (h ▸ ha)
+    have := ih (seen ++ [d.name]) h4 this
+    simpa [dnames] using this
+
+theorem name_inj {ps : List Parser} (hn : (names ps).Nodup) {q r : Parser} (hq : q ∈ ps) (hr : r ∈ ps)
+    (h : q.name = r.name) : q = r := by
+  induction ps with
+  | nil => cases hq
+  | cons a as ih =>
+    simp only [names, List.map_cons, List.nodup_cons] at hn
+    obtain ⟨h1, h2⟩ := hn
+    rcases List.mem_cons.mp hq with hq1 | hq1
+    · rcases List.mem_cons.mp hr with hr1 | hr1
+      · rw [hq1, hr1]
+      · subst hq1
+        exact (h1 (List.mem_map.mpr ⟨r, hr1, h.symm⟩)).elim
+    · rcases List.mem_cons.mp hr with hr1 | hr1
+      · subst hr1
+        exact (h1 (List.mem_map.mpr ⟨q, hq1, h⟩)).elim
+      · exact ih h2 hq1 hr1
+
+theorem findParser_public {ps : List Parser} (hn : (names ps).Nodup) {q : Parser} (hq : q ∈ ps)
+    (hpub : q.internal = false) : findParser (ps.filter (fun q => !q.internal)) q.name = some q := by
+  have hq' : q ∈ ps.filter (fun q => !q.internal) := List.mem_filter.mpr ⟨hq, by simp [hpub]⟩
+  obtain ⟨r, hr⟩ := findParser_of_mem hq'
+  obtain ⟨hrm, hrn⟩ := findParser_some hr
+  rw [hr, name_inj hn (List.mem_filter.mp hrm).1 hq hrn]
+
+theorem findParser_internal {ps : List Parser} (hn : (names ps).Nodup) {q : Parser} (hq : q ∈ ps)
+    (hint : q.internal = true) : findParser (ps.filter (fun q => !q.internal)) q.name = none := by
+  cases hf : findParser (ps.filter (fun q => !q.internal)) q.name with
+  | none => rfl
+  | some r =>
+    obtain ⟨hrm, hrn⟩ := findParser_some hf
+    obtain ⟨hr1, hr2⟩ := List.mem_filter.mp hrm
+    rw [name_inj hn hr1 hq hrn, hint] at hr2
+    simp at hr2
+
+theorem ext_nil (ps0 : List Parser) : ps0.map (ext ps0 []) = ps0 := by
+  have : ∀ q : Parser, ext ps0 [] q = q := by intro q; cases q; simp [ext]
+  rw [List.map_congr_left (fun q _ => this q)]
+  exact List.map_id' ps0
+
+theorem declare_err {std : List OptSpec} {ps : List Parser} {d : Decl} {e : Err}
+    (h : declare std ps d = .error e) : e = .assertion := by
+  unfold declare at h
+  split at h
+  · cases h; rfl
+  · split at h
+    · cases h; rfl
+    · split at h
+      · cases h; rfl
+      · cases h
+
+theorem declareAll_err {std : List OptSpec} (ds : List Decl) {ps : List Parser} {e : Err}
+    (h : declareAll std ps ds = .error e) : e = .assertion := by
+  induction ds generalizing ps with
+  | nil => cases h
+  | cons d ds ih =>
+    unfold declareAll at h
+    cases hd : declare std ps d with
+    | error e' =>
+      simp only [hd] at h
+      cases h
+      exact declare_err hd
+    | ok ps1 =>
+      simp only [hd] at h
+      exact ih h
 
 end CliGraph
